@@ -113,7 +113,10 @@ CLAIMS = {
          "execution — including return/break/continue/exit/errexit leaving nested constructs inside functions — restores fdepth and scope exactly; "
          "repeat_balanced (N repetitions), iteration_starts_from_same_depth, fault_gives_scope_back, function_frames_popped_on_every_exit. The "
          "model stays inside the C02 refinement (exec_refines re-proved). Tie: generated sequences repeated 1, 2 and 30/500 times in ONE in-process "
-         "shell with scope depth (serde), call-stack depth, /proc/self/fd and zombie children sampled; and 3 repetitions in the binary vs bash vs model.",
+         "shell with scope depth (serde), call-stack depth, /proc/self/fd and zombie children sampled (per-request watchdog, resilient runner); and 3 "
+         "repetitions in the binary vs bash vs model. Fixed extras beyond the model's grammar: sourced files, dispatch paths with failing redirects, "
+         "exec / process-substitution forms, POSIX-mode function dispatch, mode switches, and preludes that make shell-maintained variables "
+         "read-only (`readonly _ PIPESTATUS OPTIND PWD LINENO FUNCNAME IFS RANDOM …`) so that every fallible bookkeeping step is exercised.",
          "Trusted: Lean kernel + standard axioms. Descriptor counts and unreaped children are runtime facts: observed, not proved (partial).",
          "DESIGN.md §6 C18"),
  "C09": ("Lean 4 invariant proofs over operation sequences on a model of the scope stack and variable attributes + API-level and program-level correspondence",
@@ -150,7 +153,9 @@ CLAIMS = {
          "subshell_own_trap_only_handler_missing (what brush loses is exactly the handler's run). "
          "Tie: 7 ways out x 15 nesting contexts x 7 handler bodies x {-c, file, stdin}, trap set/replaced/removed + random programs: brush vs bash vs "
          "model, and the exactly-once predicate on brush's own trace; own-trap family (7 ways x 7 nestings x 7 handlers x {( ), $( ), pipeline stage}) "
-         "brush vs bash vs model of brush vs reference; ERR-trap programs brush vs bash.",
+         "brush vs bash vs model of brush vs reference; nested-trap family (the way out x context x handler crossed with an ERR/DEBUG/RETURN/USR1 "
+         "trap or xtrace running inside the EXIT handler); signal-trap family; ERR-trap programs (handlers that leave their frame: function, "
+         "sourced file, eval) brush vs bash plus the intrinsic no-nesting check.",
          "Trusted: Lean kernel + standard axioms; bash as oracle. Where the ERR trap fires inside a program is not in the model (compared with bash "
          "directly); traps set inside the program are resolved statically to the handler in force at exit. Fixes for the three recorded findings "
          "are blocked by known_failure pins in the repository's stable test set.",
@@ -206,7 +211,9 @@ CLAIMS = {
          "Tie: exhaustive family (failing leaf x 13 contexts x 10 wrappers x 5 option settings x 2 nesting orders) + seeded random programs "
          "run in brush and bash and both Lean models. nounset: theorems on the shared parameter-expansion model (plain/substring/removal of an "
          "unset parameter are rejected under -u; the - + = ? operators, $@/$*/a[@] never are; cex for ${#v[@]}) and 49 expansion forms x 9 "
-         "variable states (+ positional cases) decided directly brush vs bash.",
+         "variable states x 3 statement forms x 3 placements (+ positional cases) decided directly brush vs bash; lastpipe_exit_reaches_the_shell / "
+         "no_lastpipe_stage_flow_stays_inside; a toggle family (set -e/+e, shopt inherit_errexit, pipefail switched inside functions, eval, groups, "
+         "function-in-eval, before/inside/after the failing construct).",
          "Trusted: Lean kernel + standard axioms; bash 5.2.15 as oracle. The Lean bash-errexit semantics (Spec/FlowBash.lean: checks after simple "
          "commands, subshells, pipelines, failing builtins; not after groups/loops/if/case) is validated against bash on every case. Three bash "
          "behaviours contradicting the property's wording are excluded from generation (DESIGN.md). For nounset the theorems cover the operators of Model/ParamOps.lean; the other "
@@ -231,7 +238,10 @@ CLAIMS = {
          "the same function/subshell) brush's run and bash's run produce the same trace, the same `$?` after every construct and the same "
          "exit status (program_refines_bash_partial), for any nesting depth; the unguarded statement is refuted (flow_full_cex) and "
          "recorded as findings. Tie: every run executes an exhaustive family + seeded random programs with scripted leaves in brush and "
-         "bash and compares stdout trace + exit status with both Lean models.",
+         "bash and compares stdout trace + exit status with both Lean models (four-way decision: brush, bash, model of brush, bash "
+         "semantics); half of the random programs are rendered with decorations that must not matter (a harmless redirect on compound "
+         "commands, newlines for `;`, `function f {`, one of 22 neutral option settings after the prelude), return/exit codes include "
+         "negative, > 255 and i64-extreme values, and a fatal expansion error (`${x?}`, …) is a way out.",
          "Trusted: Lean kernel; propext/Classical.choice/Quot.sound; Lean compiler for drv; bash 5.2.15 as oracle (the Lean bash "
          "semantics is validated against it on every case; oracle_mismatch is reported). Modelled, not verified: tokenizer/parser "
          "(programs are rendered to text and parsed by the real parser on every case), expansion of leaf commands, async plumbing. "
@@ -243,7 +253,9 @@ CLAIMS = {
          "that the file's command lines are a subsequence of the recorded commands (exactly once, in order), that a save leaves "
          "nothing out, that reload yields the file, and that saving twice adds nothing. The guard NoSaveW (`history -w`) is a "
          "recorded finding with a proved counter-example. Tie: every run drives real Shell instances (in-process) and interactive "
-         "brush processes through exhaustive + random op sequences and compares file bytes and item flags with the compiled model.",
+         "brush processes through exhaustive + random op sequences (add, multi-line add, delete by index/range, clear, -a/-w/-r/-n, "
+         "HISTTIMEFORMAT toggles, save-on-exit, kill without save, and a new session constructed with or without timestamps) and compares "
+         "file bytes and item flags with the compiled model.",
          "Trusted: Lean kernel; propext/Classical.choice/Quot.sound; Lean compiler for drv; the correspondence is differential "
          "testing (exhaustive to length 4/5 over 12 op kinds, random to 40). Not modelled: reedline's own history backend, "
          "concurrent writers to one file, file-system failures.",
